@@ -161,7 +161,76 @@ def apply(state, op, times):
   raise ValueError(op)
 
 
+# ---- a fixed document through every writer configuration: what it gives when a worker process starts is what it must give after every
+# case that process has run since.  State that a call leaves behind outside the documents (a writer's filter table shared by all
+# conversions, say) changes the results of later calls for good, so only the first case to trigger it could see it by comparing calls
+# within the case; the canary sees it after whichever case triggers it.
+
+def _canary_doc():
+  import ttconv.model as m
+  doc = m.ContentDocument()
+  regs = []
+  for rid, y in (("c1", 10), ("c2", 60)):
+    r = m.Region(rid, doc)
+    r.set_style(styles.StyleProperties.Origin, styles.CoordinateType(styles.LengthType(10, styles.LengthType.Units.pct), styles.LengthType(y, styles.LengthType.Units.pct)))
+    r.set_style(styles.StyleProperties.Extent, styles.ExtentType(styles.LengthType(30, styles.LengthType.Units.pct), styles.LengthType(80, styles.LengthType.Units.pct)))
+    r.set_style(styles.StyleProperties.TextAlign, styles.TextAlignType.end)
+    doc.put_region(r)
+    regs.append(r)
+  body = m.Body(doc)
+  doc.set_body(body)
+  div = m.Div(doc)
+  body.push_child(div)
+  for k, (b, e, reg) in enumerate(((Fraction(1), Fraction(3), regs[0]), (Fraction(2), Fraction(7, 2), regs[1]), (Fraction(4), None, regs[0]))):
+    p = m.P(doc)
+    p.set_begin(b)
+    p.set_end(e)
+    p.set_region(reg)
+    for j, (text, prop, value) in enumerate((("plain%d " % k, None, None), ("red%d" % k, styles.StyleProperties.Color, RED),
+                                             ("bold%d" % k, styles.StyleProperties.FontWeight, styles.FontWeightType.bold),
+                                             ("bg%d" % k, styles.StyleProperties.BackgroundColor, styles.NamedColors.blue.value))):
+      sp = m.Span(doc)
+      if prop is not None:
+        sp.set_style(prop, value)
+      sp.push_child(m.Text(doc, text))
+      p.push_child(sp)
+      if j == 1:
+        p.push_child(m.Br(doc))
+    div.push_child(p)
+  return doc
+
+
+def _canary_outputs():
+  out = []
+  for op in [("srt", i) for i in range(len(SRT_CFGS))] + [("vtt", i) for i in range(len(VTT_CFGS))] + [("imsc", i) for i in range(len(IMSC_CFGS))]:
+    out.append((op, _apply_doc(_canary_doc(), op)))
+  return out
+
+
+def _apply_doc(doc, op):
+  st_ = State.__new__(State)
+  st_.doc, st_.sig = doc, None
+  return apply(st_, op, ([Fraction(0)], []))
+
+
+_CANARY = []
+
+
 def check(case, res):
+  if not _CANARY:
+    _CANARY.append(_canary_outputs())
+  try:
+    _check(case, res)
+  finally:
+    now = _canary_outputs()
+    for (op, a), (_op, b) in zip(_CANARY[0], now):
+      if a != b:
+        res.fail("process-state-changed:%s" % op[0], "after this case the fixed document gives another result for %r than when the process started" % (op,))
+        _CANARY[0] = now
+        break
+
+
+def _check(case, res):
   spec, ops = case["spec"], [tuple(o) for o in case["ops"]]
   ref = Ref(spec)
   times, _b = ref.probe_times()
